@@ -101,13 +101,7 @@ class C01(Check):
             cfg["convergence_precision"] = rng.choice([0, 0, 1, 2])
         n = rng.randint(1, 12)
         if rng.random() < 0.15:
-            # losses dictated through the model so that the convergence stop is actually reached
-            cfg["model"] = {"kind": "scripted", "D": cfg["model"]["D"], "extreme": 0.0}
-            cfg["loss"] = {"cls": "minkowski", "opts": {"p": 1}}
-            cfg["sim_length"] = None
-            cfg["convergence_precision"] = rng.choice([0, 1, 3])
-            cfg["script"] = [rng.choice([3.0, 1.0, 0.2, 0.04, 1e-5, 0.0]) for _ in range(rng.randint(3, 30))]
-            cfg["script_per"] = 1
+            calsim.make_scripted_convergence(cfg, rng)
         rl = cfg["scheduler"]["kind"] == "rl"
         perts = [gen_perturbation(rng, rl) for _ in range(rng.randint(1, 3))]
         scn = {"engine": "calsim", "config": cfg, "env": {}, "ops": [["calibrate", n]], "perturbations": perts,
